@@ -7,6 +7,7 @@ import Hv.Driver.Vmdk
 import Hv.Driver.Qcow2
 import Hv.Driver.Vmtar
 import Hv.Driver.Misc
+import Hv.Driver.HyperV
 open Hv Hv.Driver
 
 def dispatch (st : St) (toks : List String) : String :=
@@ -23,6 +24,7 @@ def dispatch (st : St) (toks : List String) : String :=
     else if cmd.startsWith "qcow2." then qcow2Cmd st toks
     else if cmd.startsWith "vmtar." then vmtarCmd st toks
     else if cmd.startsWith "fx." || cmd.startsWith "xml." then miscCmd st toks
+    else if cmd.startsWith "hyperv." then hypervCmd st toks
     else "bad-cmd"
 
 partial def loop (h : IO.FS.Stream) (out : IO.FS.Stream) (st : St) : IO Unit := do
